@@ -192,6 +192,10 @@ def replay_violation(plan, ob, tier):
         info["counterexample"] = None
         info["note"] = "Verus gives no counterexample; no Kani twin failed"
         return info, False, True
+    if os.environ.get("VERIF_NO_REPLAY"):   # development only (seed triage): skip the concrete playback and the native replay
+        info["counterexample"] = None
+        info["note"] = "playback skipped (VERIF_NO_REPLAY)"
+        return info, False, True
     g = next(g for g in plan.kani if ob in g["harness"].values())
     h = next(k for k, v in g["harness"].items() if v is ob)
     logs = os.path.join(BUILD, "logs", plan.prop)
